@@ -15,7 +15,14 @@ def _field_name(cat, c):
     return "?"
 
 
-def build_scenarios(wd, proto, n, t, kinds, seed, limit=None, scheds=1, cross=False, alts=None, start_id=0, pool=False, fieldwise=False):
+def _leaf_len(cat, c):
+    for s in cat["slots"]:
+        if s["round"] == c["round"] and bool(s["b"]) == bool(c["b"]) and c["leaf"] < len(s["leaves"]):
+            return s["leaves"][c["leaf"]].get("Len", 0)
+    return 0
+
+
+def build_scenarios(wd, proto, n, t, kinds, seed, limit=None, scheds=1, cross=False, alts=None, start_id=0, pool=False, fieldwise=False, minlen=0):
     cat = hc.fault_catalogue(wd, proto, n, t, seed)
     cases = []
     if "equiv" in kinds:
@@ -25,6 +32,8 @@ def build_scenarios(wd, proto, n, t, kinds, seed, limit=None, scheds=1, cross=Fa
         lenfam = alts is not None and "len*" in alts
         fl = [c for c in cat["fault"] if (c["alt"].startswith("len") and lenfam) or
               (not c["alt"].startswith("len") and (alts is None or c["alt"] in alts))]
+        if minlen:
+            fl = [c for c in fl if _leaf_len(cat, c) >= minlen]    # the big numbers (moduli-sized values) only
         if fieldwise:
             # one case per (message slot, field name, alteration): the first list position, a cheater and recipient
             # that rotate with the seed
@@ -81,7 +90,7 @@ def run_family(rep, wd, plan, prop, seed, count_props, shards=8, extra_scen=()):
     for p in plan:
         sc, total, cat = build_scenarios(wd, p["proto"], p["n"], p["t"], p["kinds"], seed, p.get("limit"), p.get("scheds", 1),
                                          p.get("cross", False), p.get("alts"), start_id=len(scen), pool=p.get("pool", False),
-                                         fieldwise=p.get("fieldwise", False))
+                                         fieldwise=p.get("fieldwise", False), minlen=p.get("minlen", 0))
         scen += sc
         cat_total += total
         states += cat["tlc"]["distinct"]; trans += cat["tlc"]["generated"]
